@@ -23,4 +23,9 @@ CLAIMS = {
              "(exactly the all-zero and all-maximum entries), normalize_spec (sums to one, ratios preserved), view_noop; the pipeline model (transcribed View::run) is compared with the real "
              "binary for all 16 option subsets, single vs chained through npy pipes.",
         note=NOTE_COMMON + " Lossless npy in between is C07/C15's theorem; binary64 evaluation of projection/normalisation is compared within 2^-30 relative, not proved. clap's option parsing is exercised, not modelled."),
+    "C03": dict(
+        text="Unbounded Lean theorems over any characteristic-0 field: project_eq_spec (the odometer + weighted accumulation computes y[t] = sum_f x[f] prod_j Hypergeom(t_j; n_j, f_j, m_j) for any number of axes), "
+             "hyper_sum_one (Vandermonde), project_mass, project_nonneg, project_id, hyper_compose / project_project (two steps = direct), and the validation logic; the model is compared with "
+             "Spectrum::project on all admissible targets of exhaustive small shapes and with hypergeometric_pmf at sizes up to 5000 chromosomes (exact rational reference).",
+        note=NOTE_COMMON + " Partial clause: finiteness / accuracy of the binary64 evaluation at thousands of chromosomes is explored by coefficient probes (exact reference, 2^-30 relative), not proved."),
 }
